@@ -363,21 +363,26 @@ pub fn worker(args: &Args, w: &Worker) -> i32 {
     }
     // large searches: every cut point through fork-based checkpointing
     let thorough = args.tier == "thorough";
-    for p in P9.iter().take(if thorough { P9.len() } else { 6 }) {
+    for p in P9.iter().take(if thorough { 20 } else { 6 }) {
         let maxd: u8 = if thorough { 6 } else { 5 };
         for depth in 3..=maxd {
             // size of the uninterrupted search decides whether this pair is swept
             let Ok((board, _, _)) = searchrun::open(p.fen, &spos::hist(p)) else { continue };
             let probe = searchrun::run(&board, &Kind::Stop.case(p, depth, 0), &Opts { clear_cache: true, observe: false, neutral: false });
             let big = p.name == "kiwipete";
-            let cap = if thorough { 1_500_000 } else if big { 150_000 } else { 12_000 };
+            let cap = if thorough { 300_000 } else if big { 150_000 } else { 12_000 };
             if probe.panicked.is_some() || probe.nodes > cap {
                 break;
             }
             if probe.nodes <= cap_other {
                 continue; // already enumerated the classical way above
             }
-            if !thorough && probe.nodes > 12_000 {
+            if thorough && probe.nodes > 60_000 {
+                // thorough tier, very large search: every poll as a stop, every limit check as a
+                // clock expiry on the clock-management path
+                fork_sweep(w, p, depth, Kind::Stop, 1, 0);
+                fork_sweep(w, p, depth, Kind::ClockManaged, 1, 0);
+            } else if !thorough && probe.nodes > 12_000 {
                 // quick tier, large search: every second poll as a stop, every other limit check as
                 // a clock expiry (the thorough tier takes every one for all three kinds)
                 fork_sweep(w, p, depth, Kind::Stop, 2, 0);
